@@ -27,6 +27,15 @@ type BCE struct {
 var bceLine = regexp.MustCompile(`^(.+\.go):(\d+):(\d+): Found (IsInBounds|IsSliceInBounds)`)
 
 func (p *Program) RunBCE() (*BCE, error) {
+	// one compiler run per loaded program (the source does not change under a run)
+	if p.bce != nil || p.bceErr != nil {
+		return p.bce, p.bceErr
+	}
+	p.bce, p.bceErr = p.runBCE()
+	return p.bce, p.bceErr
+}
+
+func (p *Program) runBCE() (*BCE, error) {
 	cmd := exec.Command("go", "build", "-gcflags="+ModPath+"/...=-d=ssa/check_bce/debug=1", "./...")
 	cmd.Dir = p.Repo
 	cmd.Env = Env()
